@@ -396,6 +396,7 @@ type c05variant struct {
 }
 
 func runC05Scenario(rf *runFlags, rnd *rand.Rand, sum *Summary, cf *CasesFile, v c05variant, caseNo int) error {
+
 	in := map[string]any{"variant": v.name, "seed": rf.Seed, "case": caseNo}
 	sys := &c05sys{repCfg: replication.Config{ReconcileInterval: 150 * time.Millisecond,
 		Workers: replication.WorkerConfig{PollInterval: 20 * time.Millisecond, LeaseInterval: 50 * time.Millisecond, LogRPCTimeout: 5 * time.Second, SnapshotRPCTimeout: 20 * time.Second, MaxRecoveryInFlight: 1}}}
@@ -412,7 +413,7 @@ func runC05Scenario(rf *runFlags, rnd *rand.Rand, sum *Summary, cf *CasesFile, v
 	if v.stallApply {
 		sys.repCfg.Workers.LogRPCTimeout = 700 * time.Millisecond
 		listener = func(table string, rev uint64) {
-			if table == "t" && stallArmed.CompareAndSwap(true, false) {
+			if table == "t" && rev > 0 && stallArmed.CompareAndSwap(true, false) {
 				sum.hist("stalls").Inc("apply path stalled for 1.6 s (proposal deadline 0.7 s)")
 				time.Sleep(1600 * time.Millisecond)
 			}
@@ -595,6 +596,15 @@ func runC05Scenario(rf *runFlags, rnd *rand.Rand, sum *Summary, cf *CasesFile, v
 	}
 	if v.stallApply {
 		// the next batch the follower applies stalls; the leader keeps writing meanwhile
+		// (only once the follower replicates incrementally: its table exists and has recorded a leader index)
+		if _, err := sys.follower.waitTable(tname); err != nil {
+			return err
+		}
+		for dl := time.Now().Add(20 * time.Second); time.Now().Before(dl); time.Sleep(20 * time.Millisecond) {
+			if li, err := sys.follower.leaderIndex(tname); err == nil && li > 0 {
+				break
+			}
+		}
 		stallArmed.Store(true)
 		pace = 40 * time.Millisecond
 		if err := write(45); err != nil {
@@ -785,6 +795,18 @@ func runC05Scenario(rf *runFlags, rnd *rand.Rand, sum *Summary, cf *CasesFile, v
 	}
 	// every proposal is tagged with the leader index of ITS last command (the index the follower records - and
 	// reports to waiting follower-API writers - once the proposal is applied)
+	if fl == leaderApplied && len(flat) > len(leaderIDs) {
+		sum.violate(caseNo, "the commands the follower applied are not the leader's commands, each once and in leader order", in,
+			fmt.Sprintf("the follower's proposals (leader index tag:size) %v carry %d commands, the leader's log has only %d (leader commands applied more than once)", flatDescr, len(flat), len(leaderIDs)))
+	}
+	// a proposal that repeats the leader index tag of the one before it carries commands that were already proposed
+	for k := 1; k < len(flatDescr); k++ {
+		if flatDescr[k] == flatDescr[k-1] && !strings.HasPrefix(flatDescr[k], "None") {
+			sum.violate(caseNo, "the commands the follower applied are not the leader's commands, each once and in leader order", in,
+				fmt.Sprintf("proposals %d and %d of %v are the same batch (same leader index tag, same size): its commands take effect twice", k-1, k, flatDescr))
+			break
+		}
+	}
 	if fl == leaderApplied && len(flat) <= len(leaderIDs) {
 		pos := uint64(len(leaderIDs) - len(flat)) // leader index of the command before the first one proposed since the last recovery
 		for k, st := range seqTags[len(seqTags)-len(flatDescr):] {
